@@ -141,7 +141,10 @@ def regex(draw, cfg, binary=False, depth=2, closed=None):
         return ("rep", node(d - 1), n, m)
     r = node(depth)
     core = rx.to_core(r)
-    if core == rx.EMPTY or core == rx.EPS or rx.nullable(core):
+    if core == rx.EMPTY:
+        # a pattern nothing can match (e.g. [^\\w\\W]): when such a statement fails is not defined by the reference
+        return ("lit", draw(st.sampled_from(ALPHA)))
+    if core == rx.EPS or rx.nullable(core):
         # keep statement-level regexes non-nullable: prefix a literal
         r = ("seq", (("lit", draw(st.sampled_from(ALPHA))), r))
     if closed:
